@@ -212,7 +212,9 @@ func suiteCodec(seed uint64, tier string) *Report {
 			c.Ops = append(c.Ops, "dec "+hx(enc))
 			c.Impl = append(c.Impl, dout)
 			// C12 monitor on the real code: round trip and no aliasing
-			var back raft.Log
+			// the destination is a log that was used before (GetLog callers reuse them): every field must be overwritten
+			back := raft.Log{Index: 9999, Term: 8888, Type: raft.LogBarrier, Data: []byte("stale data of an earlier read"),
+				Extensions: []byte("stale extensions"), AppendedAt: time.Unix(12345, 678)}
 			err := (&wal.BinaryCodec{}).Decode(append([]byte(nil), enc...), &back)
 			if err != nil {
 				viols = append(viols, Violation{Property: "C12", What: "decode(encode(log)) returned an error", Detail: err.Error()})
